@@ -101,9 +101,11 @@ def obligations(tier):
             obs.append(wellformed_ob(prog, cls, ctx))
     from .common import hidden_state_ob
     obs.append(hidden_state_ob(prog, "purity"))      # the observation array handed to set_y is an operand: not written, no state kept between calls
+    from .common import endpoint_contiguity_ob
+    obs.append(endpoint_contiguity_ob(model.load(), "indexlist"))
     return obs
 
 
-FLOORS = {"group:value": 8, "group:wellformed": 8, "group:purity": 1}
+FLOORS = {"group:value": 8, "group:wellformed": 8, "group:purity": 1, "group:indexlist": 1}
 LEVEL = "proof"
 EXPLANATION = "set_y of every linear conditional class, contexts R=1 (broadcast over N observations) and R=N (paired), against the Normal log-density in y with dim(Sigma)=Dy."
